@@ -36,9 +36,15 @@ func (w *cntW) WriteLevel(l zerolog.Level, p []byte) (int, error) {
 type cntSampler struct {
 	n     int
 	admit bool
+	last  zerolog.Level
 }
 
-func (s *cntSampler) Sample(zerolog.Level) bool { s.n++; return s.admit }
+func (s *cntSampler) Sample(l zerolog.Level) bool { s.n++; s.last = l; return s.admit }
+
+// cntHook / cntFunc count hook runs and Func callbacks on the grid loggers: both happen exactly for written events
+type cntHook struct{ n *int }
+
+func (h cntHook) Run(*zerolog.Event, zerolog.Level, string) { *h.n++ }
 
 func should(ev, lg, gl int) bool { return ev != 7 && ev >= lg && ev >= gl }
 
@@ -63,6 +69,9 @@ func c04(args []string) int {
 		base := zerolog.New(w).Level(zerolog.Level(lg))
 		sAdmit, sReject := &cntSampler{admit: true}, &cntSampler{}
 		la, lr := base.Sample(sAdmit), base.Sample(sReject)
+		var hookRuns, funcRuns int
+		lh := base.Hook(cntHook{&hookRuns})
+		cntFunc := func(e *zerolog.Event) { funcRuns++ }
 		for gl := -128; gl <= 127; gl++ {
 			zerolog.SetGlobalLevel(zerolog.Level(gl))
 			for ev := -128; ev <= 127; ev++ {
@@ -85,6 +94,17 @@ func c04(args []string) int {
 				wantS := 0
 				if want {
 					wantS = 1
+				}
+				if want && (sAdmit.last != zerolog.Level(ev) || sReject.last != zerolog.Level(ev)) {
+					viol("gate-sampler-level", fmt.Sprintf("logger %d global %d event %d: the sampler was handed level %d / %d", lg, gl, ev, sAdmit.last, sReject.last),
+						map[string]interface{}{"logger": lg, "global": gl, "event": ev})
+				}
+				// hooks and Func callbacks run exactly for the events that are written
+				w.n, hookRuns, funcRuns = 0, 0, 0
+				lh.WithLevel(zerolog.Level(ev)).Func(cntFunc).Msg("m")
+				if hookRuns != wantS || funcRuns != wantS || w.n != wantS {
+					viol("gate-hooks", fmt.Sprintf("logger %d global %d event %d: %d hook run(s), %d Func callback(s), %d write(s); expected %d of each", lg, gl, ev, hookRuns, funcRuns, w.n, wantS),
+						map[string]interface{}{"logger": lg, "global": gl, "event": ev})
 				}
 				if sAdmit.n != wantS || sReject.n != wantS || (na == 1) != want || nr != 0 {
 					viol("gate-sampler", fmt.Sprintf("logger %d global %d event %d: sampler consulted %d/%d times (expected %d), writes admit=%d reject=%d", lg, gl, ev, sAdmit.n, sReject.n, wantS, na, nr),
@@ -113,11 +133,48 @@ func c04(args []string) int {
 					viol("gate-named", fmt.Sprintf("logger %d global %d %s: writes=%d enabled=%v level passed=%d expected written=%v", lg, gl, m.name, w.n, en, w.last, want), nil)
 				}
 			}
+			// Panic(): always panics; written iff the gate (and the sampler) lets level 5 pass; finalizers rotate
+			for pi, pl := range []*zerolog.Logger{&base, &lr} {
+				named++
+				w.n = 0
+				panicked := false
+				func() {
+					defer func() { panicked = recover() != nil }()
+					e := pl.Panic()
+					switch (lg + gl + 256) % 4 {
+					case 0:
+						e.Msg("m")
+					case 1:
+						e.Send()
+					case 2:
+						e.Msgf("%d", 1)
+					default:
+						e.MsgFunc(func() string { return "m" })
+					}
+				}()
+				want := should(5, lg, gl) && pi == 0
+				if !panicked || (w.n == 1) != want || w.n > 1 || (want && w.last != zerolog.PanicLevel) {
+					viol("gate-panic", fmt.Sprintf("logger %d global %d Panic() (reject-all sampler=%v): panicked=%v writes=%d level passed=%d; expected a panic and written=%v", lg, gl, pi == 1, panicked, w.n, w.last, want), nil)
+				}
+			}
+			// Logger.Write is an event without level
+			{
+				named++
+				w.n = 0
+				base.Write([]byte("m"))
+				want := should(6, lg, gl)
+				if (w.n == 1) != want || (want && w.last != zerolog.NoLevel) {
+					viol("gate-write", fmt.Sprintf("logger %d global %d Logger.Write: writes=%d level passed=%d expected written=%v", lg, gl, w.n, w.last, want), nil)
+				}
+			}
 			// Print family is Debug level
 			for _, pf := range []func(){func() { base.Print("x") }, func() { base.Printf("%s", "x") }, func() { base.Println("x") }} {
 				named++
 				w.n = 0
 				pf()
+				if w.n == 1 && w.last != zerolog.DebugLevel {
+					viol("gate-print", fmt.Sprintf("logger %d global %d Print*: level passed to WriteLevel is %d", lg, gl, w.last), nil)
+				}
 				if (w.n == 1) != should(0, lg, gl) {
 					viol("gate-print", fmt.Sprintf("logger %d global %d Print*: writes=%d expected %v", lg, gl, w.n, should(0, lg, gl)), nil)
 				}
@@ -335,7 +392,14 @@ func c04Inert(out *evid.Out, viol func(string, string, map[string]interface{})) 
 		ev   func() *zerolog.Event
 	}{
 		{"level-filtered", func() *zerolog.Event { l := zerolog.New(wr).Hook(hookRec).Level(zerolog.ErrorLevel); return l.Info() }},
-		{"global-filtered", func() *zerolog.Event { l := zerolog.New(wr).Hook(hookRec); return l.WithLevel(-5) }},
+		{"below-trace", func() *zerolog.Event { l := zerolog.New(wr).Hook(hookRec); return l.WithLevel(-5) }},
+		{"global-filtered", func() *zerolog.Event {
+			zerolog.SetGlobalLevel(zerolog.ErrorLevel)
+			defer zerolog.SetGlobalLevel(zerolog.TraceLevel)
+			l := zerolog.New(wr).Hook(hookRec)
+			return l.Warn()
+		}},
+		{"zero-value-logger", func() *zerolog.Event { var l zerolog.Logger; return l.Error() }},
 		{"sampler-filtered", func() *zerolog.Event { l := zerolog.New(wr).Hook(hookRec).Sample(hookRec); return l.Warn() }},
 		{"WithLevel(Disabled)", func() *zerolog.Event { l := zerolog.New(wr).Hook(hookRec); return l.WithLevel(zerolog.Disabled) }},
 		{"Nop", func() *zerolog.Event { l := zerolog.Nop(); return l.Error() }},
